@@ -47,7 +47,15 @@ def serialise(typ, data, variant):
     if typ == "plist":
         return plistlib.dumps(data)
     if typ == "pickle":
-        return pickle.dumps(data, protocol=2)
+        def has_set(x):
+            if isinstance(x, (set, frozenset)):
+                return True
+            if isinstance(x, dict):
+                return any(has_set(v) for v in x.values())
+            return isinstance(x, (list, tuple)) and any(has_set(v) for v in x)
+        # protocol 2 builds a set by a call (the loader sees a function application); from protocol 4 on there is a set
+        # opcode and the loader builds a plain multiset node
+        return pickle.dumps(data, protocol=4 if has_set(data) else 2)
     if typ == "csv":
         rows = [["id", "name", "value"], ["1", "alpha", "x,y"], ["2", "beta", 'q"r']]
         if variant == "B":
